@@ -27,7 +27,7 @@ func init() {
 	fw.Register(&fw.Property{
 		ID:    "C15",
 		Level: "fault_enumeration",
-		Rule: "ENUMERATED limits per persisted log: log shape {single chain of 5-40, two heads (local + replicated branch of unequal length), three heads, merged fork under one head} x limit n in {-5, -1, 0, 1, 2, shortest branch -1/0/+1, total-1, total, total+1, total+50} x {Load(n) per call on a fresh store, Load(n) on a fresh store that already received the entries through replication, NewStoreOptions.MaxHistory = n with Load(0) on a store built with the public constructor over the same cache directory} x store type; the log is written, the instance closed and a fresh instance loads it. One limit per case (a crash is attributed to the limit). " +
+		Rule: "ENUMERATED limits per persisted log: log shape {single chain of 5-40, two heads (local + replicated branch of unequal length), three heads, merged fork under one head} x limit n in {-5, -1, 0, 1, 2, shortest branch -1/0/+1, total-1, total, total+1, total+50} x {Load(n) per call on a fresh store, Load(n) on a fresh store that already received the entries through replication, NewStoreOptions.MaxHistory = n with Load(0) on a store built with the public constructor over the same cache directory} x store type; the log is written, the instance closed and a fresh instance loads it; in per-call mode the same handle is then loaded twice more with the same limit, each time after 1-3 newer entries were persisted through a sibling handle of the same instance. One limit per case (a crash is attributed to the limit). " +
 			"distinct = (shape, lengths, limit relative to the log, mode, store type); non-trivial = total >= 2 and the load returned",
 		Assumptions: []string{"logs are sampled, limits enumerated", "MaxHistory mode uses a wildcard write list so that the constructor-built store's simple controller is equivalent"},
 		Cases:       c15Cases,
@@ -210,38 +210,80 @@ func c15Run(c fw.Case) fw.Verdict {
 	v.NonTrivial = total >= 2
 	v.Count("loads", 1)
 	cls := relClass(n, short, total)
+	reloads := 0
 	if loadErr != nil {
 		return fw.Verdict{Status: fw.Violated, Key: "load-error/n" + cls, NonTrivial: true, Sig: v.Sig, What: fmt.Sprintf("Load with limit %d (%s) on a %s log of %d entries returned %v", n, mode, shape, total, loadErr)}
 	}
-	got := TakeSnap(typ, s2, P.Idx)
-	want := total
-	if n > 0 && n < total {
-		want = n
-	}
-	if len(got.Order) != want {
-		return fw.Verdict{Status: fw.Violated, Key: fmt.Sprintf("wrong-count/n%s/%s", cls, shape), NonTrivial: true, Sig: v.Sig,
-			What: fmt.Sprintf("Load with limit %d (%s) on a %s log of %d entries (shortest branch %d) shows %d entries, expected %d", n, mode, shape, total, short, len(got.Order), want)}
-	}
-	if !IsSubsequence(got.Order, full.Order) {
-		return fw.Verdict{Status: fw.Violated, Key: "out-of-order/n" + cls, NonTrivial: true, Sig: v.Sig, What: fmt.Sprintf("listing after Load(%d) [%s] is not a subsequence of the full order [%s]", n, shorts(got.Order), shorts(full.Order))}
-	}
-	if want > 0 && got.Order[len(got.Order)-1] != full.Order[total-1] {
-		return fw.Verdict{Status: fw.Violated, Key: "newest-missing/n" + cls, NonTrivial: true, Sig: v.Sig, What: fmt.Sprintf("listing after Load(%d) does not contain the newest entry", n)}
-	}
-	if len(authors) == 1 && !eqStrings(got.Order, full.Order[total-want:]) {
-		return fw.Verdict{Status: fw.Violated, Key: "not-most-recent/n" + cls, NonTrivial: true, Sig: v.Sig, What: fmt.Sprintf("single-writer log: Load(%d) lists [%s], the %d most recent are [%s]", n, shorts(got.Order), want, shorts(full.Order[total-want:]))}
-	}
-	if want == total {
-		// a complete load must show the complete state
-		if got.View != full.View {
-			return fw.Verdict{Status: fw.Violated, Key: "view-differs/n" + cls, NonTrivial: true, Sig: v.Sig, What: "complete load shows a different state than before the restart"}
+	judge := func(full *Snap, phase string) *fw.Verdict {
+		total := len(full.Order)
+		got := TakeSnap(typ, s2, P.Idx)
+		want := total
+		if n > 0 && n < total {
+			want = n
 		}
-	} else if typ == tEvent && ModelView(typ, got.Entries, got.Order) != got.View {
-		return fw.Verdict{Status: fw.Violated, Key: "view-not-replay/n" + cls, NonTrivial: true, Sig: v.Sig, What: "view is not the listing of the loaded entries"}
+		if len(got.Order) != want {
+			return &fw.Verdict{Status: fw.Violated, Key: fmt.Sprintf("wrong-count%s/n%s/%s", phase, cls, shape), NonTrivial: true, Sig: v.Sig,
+				What: fmt.Sprintf("Load%s with limit %d (%s) on a %s log of %d entries (shortest branch %d) shows %d entries, expected %d", phase, n, mode, shape, total, short, len(got.Order), want)}
+		}
+		if !IsSubsequence(got.Order, full.Order) {
+			return &fw.Verdict{Status: fw.Violated, Key: "out-of-order" + phase + "/n" + cls, NonTrivial: true, Sig: v.Sig, What: fmt.Sprintf("listing after Load%s(%d) [%s] is not a subsequence of the full order [%s]", phase, n, shorts(got.Order), shorts(full.Order))}
+		}
+		if want > 0 && got.Order[len(got.Order)-1] != full.Order[total-1] {
+			return &fw.Verdict{Status: fw.Violated, Key: "newest-missing" + phase + "/n" + cls, NonTrivial: true, Sig: v.Sig, What: fmt.Sprintf("listing after Load%s(%d) [%s] does not contain the newest persisted entry %s", phase, n, shorts(got.Order), shorts(full.Order[total-1:]))}
+		}
+		if len(authors) == 1 && !eqStrings(got.Order, full.Order[total-want:]) {
+			return &fw.Verdict{Status: fw.Violated, Key: "not-most-recent" + phase + "/n" + cls, NonTrivial: true, Sig: v.Sig, What: fmt.Sprintf("single-writer log: Load%s(%d) lists [%s], the %d most recent are [%s]", phase, n, shorts(got.Order), want, shorts(full.Order[total-want:]))}
+		}
+		if want == total {
+			// a complete load must show the complete state
+			if got.View != full.View {
+				return &fw.Verdict{Status: fw.Violated, Key: "view-differs" + phase + "/n" + cls, NonTrivial: true, Sig: v.Sig, What: "complete load shows a different state than the handle that wrote the log"}
+			}
+		} else if typ == tEvent && ModelView(typ, got.Entries, got.Order) != got.View {
+			return &fw.Verdict{Status: fw.Violated, Key: "view-not-replay" + phase + "/n" + cls, NonTrivial: true, Sig: v.Sig, What: "view is not the listing of the loaded entries"}
+		}
+		v.Count("listing_checks", 1)
+		v.Sample = map[string]interface{}{"shape": shape, "total": total, "shortest_branch": short, "limit": n, "mode": mode, "type": typ, "visible": len(got.Order), "reloads": reloads}
+		return nil
 	}
-	v.Count("listing_checks", 1)
+	if bad := judge(full, ""); bad != nil {
+		return *bad
+	}
+	if mode == "per-call" {
+		// the same handle is loaded again with the same limit after newer entries were persisted through a
+		// sibling handle of the same instance (they share the cache)
+		sib, err := P.DB.Open(ctx, db.Addr, &iface.CreateDBOptions{})
+		if err != nil {
+			return fw.Verdict{Status: fw.Inconclusive, What: "sibling handle: " + err.Error()}
+		}
+		P.Track(sib)
+		// the instance remembers one handle per address, and forgets it when either is closed
+		defer s2.Close()
+		defer sib.Close()
+		if err := sib.Load(ctx, -1); err != nil {
+			return fw.Verdict{Status: fw.Inconclusive, What: "sibling load: " + err.Error()}
+		}
+		rrng := rand.New(rand.NewSource(c.Seed + 3))
+		for r := 0; r < 2; r++ {
+			if err := wr(sib, 1+rrng.Intn(3)); err != nil {
+				return fw.Verdict{Status: fw.Inconclusive, What: "sibling write: " + err.Error()}
+			}
+			e.W.Settle()
+			for _, en := range TakeSnap(typ, sib, P.Idx).Entries {
+				authors[en.Author] = true
+			}
+			if err := s2.Load(ctx, n); err != nil {
+				return fw.Verdict{Status: fw.Violated, Key: "load-error-reload/n" + cls, NonTrivial: true, Sig: v.Sig, What: fmt.Sprintf("second Load(%d) on the same handle returned %v", n, err)}
+			}
+			e.W.Settle()
+			reloads++
+			if bad := judge(TakeSnap(typ, sib, P.Idx), "-again"); bad != nil {
+				return *bad
+			}
+		}
+		v.Count("reloads_same_handle", int64(reloads))
+	}
 	v.Status = fw.Held
-	v.Sample = map[string]interface{}{"shape": shape, "total": total, "shortest_branch": short, "limit": n, "mode": mode, "type": typ, "visible": len(got.Order)}
 	return v
 }
 
